@@ -12,16 +12,23 @@ PROPERTY = "C05"
 LEVEL = "exploration"
 ENGINE = "vtime-memstream"
 TECHNIQUE = (
-    "recorded histories + offline checker: concurrent callers, the cyclic tester-present worker and reconnects share one real ECU "
+    "recorded histories + offline checker: concurrent callers, the cyclic tester-present worker, reconnects and a task waiting for the "
+    "ECU to come back (wait_for_ecu) share one real ECU "
     "client on a simulated wire in virtual time; every client call/return and transport write/read/reconnect is logged with the "
-    "calling task; the checker decides exclusion (no foreign transport event inside an exchange window), reply ownership (unique "
-    "identifier per request; for replies without an identifier - refusals with a negative response code, byte-identical for different "
+    "calling task; the checker decides exclusion (no foreign transport event inside an exchange window), reply ownership (every "
+    "request of a history is unique and the simulated ECU's positive reply carries what ISO 14229-1 has the server echo for that "
+    "service, so the reply handed to a caller must be byte for byte the one the ECU produces for its request; for replies without an identifier - refusals with a negative response code, byte-identical for different "
     "requests - the request attached to the returned reply object, read when the call returns and again after every later exchange "
     "ended, and the identity of the reply objects held by different callers) and progress after cancellation/failure (empty virtual "
     "schedule = never released)"
 )
 LEVEL_TEXT = (
-    "Exploration of schedules: 2..5 callers + tester-present worker + occasional reconnect, per-caller reply scripts {immediate, "
+    "Exploration of schedules: 2..5 callers + tester-present worker + occasional reconnect + occasionally a task in wait_for_ecu() "
+    "(probing every 0.5 s, reconnecting after a connection error, itself cancelled inside a probe); the callers all read data "
+    "identifiers or work on one job with related requests through the client's method for each service (seed / key of one or a "
+    "neighbouring security level, upload / download / block transfer of one memory area, start / stop / results of one routine, "
+    "read / write of one identifier, or a mix; also in raw form), with one caller's reply arriving after it gave up while a colleague "
+    "is queued behind it; per-caller reply scripts {immediate, "
     "k x pending, no reply, late reply after the timeout, connection error, b x busyRepeatRequest then the reply to the retransmission, "
     "busyRepeatRequest on every attempt (retries run out), no reply to the first a transmissions then a reply, refusal with a negative "
     "response code from a small set so that different requests of one history get byte-identical replies (immediately or after k x "
@@ -34,8 +41,10 @@ LEVEL_TEXT = (
     "distinct interleavings is reported."
 )
 LEVEL_NOTE = (
-    "Trusted: wire simulation and checker in vf/checks/c05.py, virtual clock. Requests carry unique data identifiers so a positive "
-    "reply identifies its request; negative finals (refusals, a busyRepeatRequest final once the retries have run out) carry no "
+    "Trusted: wire simulation and checker in vf/checks/c05.py, virtual clock. Requests are unique within a history and a positive "
+    "reply repeats exactly the request parameters the protocol has the server echo (data identifier, sub-function, routine identifier, "
+    "block counter; for upload/download only the service) - two requests that agree in all of them get byte-identical replies, which "
+    "no client can tell apart and which are not held against it; negative finals (refusals, a busyRepeatRequest final once the retries have run out) carry no "
     "identifier: they are judged by the negative response code the simulated ECU planned for that request and by the request the "
     "returned reply object names (UDSResponse.trigger_request, compared by bytes with the caller's request). A negative reply that an "
     "abandoned exchange (cancelled caller) left on the wire and the next exchange reads cannot be told apart by any client and is not "
@@ -43,7 +52,7 @@ LEVEL_NOTE = (
     "first transport event and closes when the client hands the final reply or error back (database logging / return of the call)."
 )
 RULE = (
-    "cases = (number of callers, reply script per caller, per-request retry setting, arrival offsets, yield seed, tester-present "
+    "cases = (number of callers, service and parameters of every caller's requests, task waiting for the ECU (start, time limit), reply script per caller, per-request retry setting, arrival offsets, yield seed, tester-present "
     "interval, reconnect time, database logging time, cancellation point); non-trivial = at least two exchanges overlapped in time (a caller arrived while another held the client); "
     "distinct = distinct case tuples; distinct_traces = distinct (event kind, task) sequences"
 )
@@ -55,7 +64,6 @@ EXHAUSTIVE = {"quick": False, "thorough": False}
 EXHAUSTIVE_NOTE = "thorough enumerates every cancellation point (transport event index) of each base history"
 
 KINDS = ["immediate", "pending", "silent", "late", "connerr", "busy", "busy-always", "flaky", "refused", "pending-refused"]
-BUSY = bytes([0x7F, 0x22, 0x21])
 RETRY_KINDS = ("busy", "busy-always", "flaky")
 REFUSED_KINDS = ("refused", "pending-refused")
 # negative response codes of a refusal: few, so that different requests of one history are answered with byte-identical replies
@@ -81,7 +89,17 @@ def required_reach(tier: str) -> dict[str, int]:
             # different requests of one history answered with byte-identical replies (refusals without an identifier); every caller keeps
             # its reply object while later exchanges run / is still inside its call (database logging takes time) when the next one ends
             "refused.results-owned": 1000, "attribution.negative-replies-judged": 1000, "same-bytes.reply-held-across-later-exchange": 500,
-            "same-bytes.exchange-ends-while-earlier-caller-logs": 30}
+            "same-bytes.exchange-ends-while-earlier-caller-logs": 30,
+            # callers working on one job: an exchange reads the reply the ECU produced for a related request whose caller had given up
+            "related-requests.histories": 3000, "results.owned/other-services": 3000,
+            "stale-reply-read.seed-read-by-key-of-that-level": 50, "stale-reply-read.key-read-by-seed-of-that-level": 50,
+            "stale-reply-read.upload-read-by-download": 50, "stale-reply-read.download-read-by-upload": 50,
+            "stale-reply-read.same-service": 500, "stale-reply-read.same-service-other-sub-function": 250,
+            "stale-reply-read.same-service-and-sub-function": 250, "stale-reply-read.other-service": 500,
+            "stale-positive-reply.accepted-for-a-refused-request": 20,
+            # one more kind of user: a task in wait_for_ecu() whose probe is due while a colleague's exchange is open
+            "waiter.histories": 1000, "waiter.arrives-inside-exchange/caller": 500, "waiter.arrives-inside-long-exchange": 200,
+            "cancel.waiter-inside-a-probe": 100}
 
 
 class Wire:
@@ -133,11 +151,20 @@ class Wire:
         # negative replies that were produced for an earlier (abandoned) request and delivered inside a later request's exchange
         self.last_written: bytes | None = None
         self.stale_negative: list[tuple[str, bytes]] = []
+        # positive replies produced for one request and delivered inside the exchange of another one: how the two requests are related
+        self.stale_positive: list[str] = []
+        self.client: Any = None  # the client under test (to recognise its tester-present worker)
+        self.stale_positive_read: list[tuple[str, bytes]] = []
         self.transport = WireTransport()
 
     def who(self) -> str:
         t = asyncio.current_task()
-        return t.get_name() if t else "?"
+        name = t.get_name() if t else "?"
+        # a tester-present worker the client (re)started on its own (wait_for_ecu stops the worker and starts a new one) has no name yet
+        if t is not None and name != "tp-worker" and t is getattr(self.client, "tester_present_task", None):
+            t.set_name("tp-worker")
+            return "tp-worker"
+        return name
 
     async def event(self, kind: str, payload: Any) -> None:
         loop = asyncio.get_running_loop()
@@ -159,7 +186,7 @@ class Wire:
             plan = plan["attempts"].pop(0) if plan["attempts"] else plan["rest"]
         if plan is None:
             if data[:1] == b"\x3e":
-                plan = [(0.0, b"\x7e\x00")]
+                plan = [(0.0, positive(data))]
             else:
                 plan = []
         t = now
@@ -184,6 +211,9 @@ class Wire:
                     raise ConnectionResetError("wire: connection lost")
                 if reply[:1] == b"\x7f" and reply[2:3] != b"\x78" and origin != self.last_written:
                     self.stale_negative.append((self.who(), reply))
+                elif reply[:1] != b"\x7f" and self.last_written is not None and origin != self.last_written:
+                    self.stale_positive.append(relation(origin, self.last_written))
+                    self.stale_positive_read.append((self.who(), reply))
                 return reply
             wait = None if deadline is None else max(0.0, deadline - now)
             if self.queue:
@@ -205,7 +235,107 @@ def named_request(resp: Any) -> bytes | None:
 
 
 def positive(req: bytes) -> bytes:
-    return bytes([0x62]) + req[1:3] + b"\xa5" + req[1:3]
+    """the simulated ECU's positive reply: the response service identifier, the request parameters ISO 14229-1 has the server echo,
+    and data that depends on nothing else - so two requests get different replies exactly where the protocol tells them apart"""
+    sid = req[0]
+    if sid == 0x22:
+        return bytes([0x62]) + req[1:3] + b"\xa5" + req[1:3]
+    if sid == 0x2E:  # WriteDataByIdentifier: the identifier
+        return bytes([0x6E]) + req[1:3]
+    if sid == 0x27:  # SecurityAccess: the sub-function; a seed (per level) in reply to requestSeed, nothing more in reply to sendKey
+        sub = req[1]
+        return bytes([0x67, sub]) + (bytes([sub ^ 0x5A, sub, 0xC3, (sub * 3) & 0xFF]) if sub % 2 else b"")
+    if sid == 0x34:  # RequestDownload / RequestUpload: nothing of the request, the server's block length
+        return bytes([0x74, 0x20, 0x0A, 0x00])
+    if sid == 0x35:
+        return bytes([0x75, 0x20, 0x0F, 0xFF])
+    if sid == 0x31:  # RoutineControl: the sub-function and the routine identifier
+        return bytes([0x71]) + req[1:4]
+    if sid == 0x36:  # TransferData: the block sequence counter
+        return bytes([0x76, req[1]])
+    if sid == 0x3E:
+        return b"\x7e\x00"
+    raise ValueError(req.hex())
+
+
+def negative(req: bytes, code: int) -> bytes:
+    return bytes([0x7F, req[0], code])
+
+
+def is_busy(b: Any) -> bool:
+    return isinstance(b, bytes) and len(b) == 3 and b[0] == 0x7F and b[2] == 0x21
+
+
+def is_pending(b: Any) -> bool:
+    return isinstance(b, bytes) and len(b) == 3 and b[0] == 0x7F and b[2] == 0x78
+
+
+def relation(origin: bytes, reader: bytes) -> str:
+    """how the request a reply was produced for and the request whose exchange reads it are related"""
+    if origin[0] == 0x27 and reader[0] == 0x27:
+        if origin[1] == reader[1]:
+            return "same-service-and-sub-function"
+        if (origin[1] + 1) // 2 == (reader[1] + 1) // 2:
+            return "seed-read-by-key-of-that-level" if origin[1] % 2 else "key-read-by-seed-of-that-level"
+        return "same-service-other-sub-function"
+    if {origin[0], reader[0]} == {0x34, 0x35}:
+        return "upload-read-by-download" if origin[0] == 0x35 else "download-read-by-upload"
+    if origin[0] == reader[0]:
+        if origin[0] == 0x31:
+            return "same-service-and-sub-function" if origin[1] == reader[1] else "same-service-other-sub-function"
+        return "same-service"
+    return "other-service"
+
+
+# the services the callers use: name -> request bytes from (parameter p, unique byte u, data identifier did)
+SERVICES: dict[str, Any] = {
+    "rdbi": lambda p, u, did: bytes([0x22]) + did.to_bytes(2, "big"),
+    "wdbi": lambda p, u, did: bytes([0x2E]) + p.to_bytes(2, "big") + bytes([u]),
+    "seed": lambda p, u, did: bytes([0x27, 2 * p - 1, u]),
+    "key": lambda p, u, did: bytes([0x27, 2 * p, u, 0x5A]),
+    "download": lambda p, u, did: bytes([0x34, 0x00, 0x22]) + p.to_bytes(2, "big") + bytes([0x01, u]),
+    "upload": lambda p, u, did: bytes([0x35, 0x00, 0x22]) + p.to_bytes(2, "big") + bytes([0x01, u]),
+    "start": lambda p, u, did: bytes([0x31, 0x01]) + p.to_bytes(2, "big") + bytes([u]),
+    "stop": lambda p, u, did: bytes([0x31, 0x02]) + p.to_bytes(2, "big") + bytes([u]),
+    "results": lambda p, u, did: bytes([0x31, 0x03]) + p.to_bytes(2, "big") + bytes([u]),
+    "transfer": lambda p, u, did: bytes([0x36, p & 0xFF, u]),
+}
+
+
+def call_id(c: dict[str, Any], call: int) -> int:
+    """identity of one call of one caller (for "rdbi" also the data identifier it reads)"""
+    return int((c["did"] + call * 7) & 0xFFFF)
+
+
+def request_of(c: dict[str, Any], call: int) -> bytes:
+    """the request bytes of one call: unique within a history (a free request parameter carries a per-call byte where the service has one)"""
+    return bytes(SERVICES[c.get("svc") or "rdbi"](c.get("p", 0), c.get("idx", 0) * 2 + call, call_id(c, call)))
+
+
+async def invoke(ecu: Any, c: dict[str, Any], call: int, cfg: Any) -> Any:
+    """the call through the client's method for that service"""
+    svc, p, u, did = c.get("svc") or "rdbi", c.get("p", 0), c.get("idx", 0) * 2 + call, call_id(c, call)
+    if svc == "rdbi":
+        return await ecu.read_data_by_identifier(did, config=cfg)
+    if svc == "wdbi":
+        return await ecu.write_data_by_identifier(p, bytes([u]), config=cfg)
+    if svc == "seed":
+        return await ecu.security_access_request_seed(2 * p - 1, bytes([u]), config=cfg)
+    if svc == "key":
+        return await ecu.security_access_send_key(2 * p, bytes([u, 0x5A]), config=cfg)
+    if svc == "download":
+        return await ecu.request_download(p, 0x100 + u, address_and_length_format_identifier=0x22, config=cfg)
+    if svc == "upload":
+        return await ecu.request_upload(p, 0x100 + u, address_and_length_format_identifier=0x22, config=cfg)
+    if svc == "start":
+        return await ecu.routine_control_start_routine(p, bytes([u]), config=cfg)
+    if svc == "stop":
+        return await ecu.routine_control_stop_routine(p, bytes([u]), config=cfg)
+    if svc == "results":
+        return await ecu.routine_control_request_routine_results(p, bytes([u]), config=cfg)
+    if svc == "transfer":
+        return await ecu.transfer_data(p & 0xFF, bytes([u]), config=cfg)
+    raise ValueError(svc)
 
 
 def build_case(rng: random.Random) -> dict[str, Any]:
@@ -250,7 +380,45 @@ def build_case(rng: random.Random) -> dict[str, Any]:
         for c in callers:
             c["timeout"] = rng.choice([0.05, 0.2, 0.5, 1.0])
             c["calls"] = 1
+    vary_usage(case, random.Random(case["yield_seed"] ^ 0x5EED7))
     return case
+
+
+THEMES: dict[str, list[str]] = {"security": ["seed", "key"], "transfer": ["download", "upload", "download", "upload", "transfer"],
+                                "routine": ["start", "stop", "results"], "identifier": ["rdbi", "wdbi"]}
+
+
+def vary_usage(case: dict[str, Any], r2: random.Random) -> None:
+    """further usage dimensions, drawn from a generator of their own (the dimensions above keep their distribution):
+    - which service every caller uses: all callers read data identifiers, or they work on one job with related requests - the same
+      service with the same / a neighbouring sub-function or parameter (seed and key of one security level, start / stop / results
+      of one routine, neighbouring block counters), sibling services (upload / download of one memory area, read / write of one
+      identifier) - or anything of that mixed;
+    - one more kind of user of the client: a task that waits for the ECU to come back (ECU.wait_for_ecu) while the others go on"""
+    callers = case["callers"]
+    for i, c in enumerate(callers):
+        c["idx"] = i
+    theme = r2.choice([None, None, None, "security", "security", "transfer", "transfer", "routine", "identifier", "mixed", "mixed"])
+    case["theme"] = theme
+    if theme is not None:
+        base = {"security": r2.randint(1, 0x20), "transfer": r2.randrange(0x1000, 0xF000), "routine": r2.randrange(0x0200, 0xFF00), "block": r2.randrange(1, 0xF0)}
+        for c in callers:
+            th = theme if theme != "mixed" else r2.choice(sorted(THEMES))
+            c["svc"] = r2.choice(THEMES[th])
+            if c["svc"] == "transfer":
+                c["p"] = base["block"] + r2.choice([0, 0, 1])
+            elif c["svc"] == "wdbi":
+                c["p"] = call_id(r2.choice(callers), 0)
+            elif c["svc"] != "rdbi":
+                c["p"] = base[th] + r2.choice([0, 0, 0, 1])
+        if len(callers) >= 2 and r2.random() < 0.5:
+            # one caller's reply comes after it has given up while a colleague is queued behind it or arrives just then
+            a, b = r2.sample(callers, 2)
+            a.update({"kind": "late", "retry": 0})
+            b["start"] = a["start"] + r2.choice([0.0, 0.01, case["timeout"] * r2.random(), case["timeout"] + 0.04 * r2.random()])
+    if case["mode"] == "client" and not case["plain_client"] and r2.random() < 0.3:
+        # wait_for_ecu(timeout): probes every 0.5 s until one probe is answered or the time is up
+        case["waiter"] = {"start": r2.choice([0.0, 0.01, 0.2, 0.5, 1.0, 2 * r2.random()]), "timeout": r2.choice([0.6, 0.9, 2, 10])}
 
 
 def plans_for(case: dict[str, Any]) -> dict[bytes, list[tuple[Any, ...]]]:
@@ -258,9 +426,10 @@ def plans_for(case: dict[str, Any]) -> dict[bytes, list[tuple[Any, ...]]]:
     to = case["timeout"]
     for c in case["callers"]:
         for call in range(c["calls"]):
-            did = (c["did"] + call * 7) & 0xFFFF
-            req = bytes([0x22]) + did.to_bytes(2, "big")
-            pend = bytes([0x7F, 0x22, 0x78])
+            req = request_of(c, call)
+            assert req not in plans, "requests of one history are unique"
+            pend = negative(req, 0x78)
+            busy = negative(req, 0x21)
             if c["kind"] == "immediate":
                 plans[req] = [(0.01, positive(req))]
             elif c["kind"] == "pending":
@@ -272,13 +441,13 @@ def plans_for(case: dict[str, Any]) -> dict[bytes, list[tuple[Any, ...]]]:
             elif c["kind"] == "connerr":
                 plans[req] = [(0.02, "CONNERR")]
             elif c["kind"] == "busy":
-                plans[req] = {"attempts": [[(0.01, BUSY)] for _ in range(c.get("b", 1))], "rest": [(0.01, positive(req))]}  # type: ignore[assignment]
+                plans[req] = {"attempts": [[(0.01, busy)] for _ in range(c.get("b", 1))], "rest": [(0.01, positive(req))]}  # type: ignore[assignment]
             elif c["kind"] == "busy-always":
-                plans[req] = {"attempts": [], "rest": [(0.01, BUSY)]}  # type: ignore[assignment]
+                plans[req] = {"attempts": [], "rest": [(0.01, busy)]}  # type: ignore[assignment]
             elif c["kind"] == "refused":
-                plans[req] = [(0.01, bytes([0x7F, 0x22, c["nrc"]]))]
+                plans[req] = [(0.01, negative(req, c["nrc"]))]
             elif c["kind"] == "pending-refused":
-                plans[req] = [(0.05, pend)] + [(0.3, pend)] * (c["k"] - 1) + [(0.3, bytes([0x7F, 0x22, c["nrc"]]))]
+                plans[req] = [(0.05, pend)] + [(0.3, pend)] * (c["k"] - 1) + [(0.3, negative(req, c["nrc"]))]
             elif c["kind"] == "flaky":
                 plans[req] = {"attempts": [[] for _ in range(c.get("a", 1))], "rest": [(0.01, positive(req))]}  # type: ignore[assignment]
     return plans
@@ -297,6 +466,7 @@ async def run_history(case: dict[str, Any], cancel_at: int | None, cancel_idx: i
         case = {**case, "tp": None, "db": False}
     else:
         ecu = ECU(wire.transport, timeout=case["timeout"], max_retry=case["max_retry"])
+    wire.client = ecu
     if case.get("db"):
 
         class _DB:
@@ -324,17 +494,17 @@ async def run_history(case: dict[str, Any], cancel_at: int | None, cancel_idx: i
         await asyncio.sleep(c["start"])
         cfg = UDSRequestConfig(max_retry=c["retry"]) if c.get("retry") is not None else None
         for call in range(c["calls"]):
-            did = (c["did"] + call * 7) & 0xFFFF
+            did = call_id(c, call)
             hist.append(("call", name, did, loop.time()))
             try:
                 if case.get("mode") == "transport":
-                    r = _R(await wire.transport.request(bytes([0x22]) + did.to_bytes(2, "big"), timeout=c.get("timeout", case["timeout"])))
+                    r = _R(await wire.transport.request(request_of(c, call), timeout=c.get("timeout", case["timeout"])))
                     ctx_reach.append("transport-mode.calls")
                 elif case.get("raw"):
-                    r = await ecu.send_raw(bytes([0x22]) + did.to_bytes(2, "big"), config=cfg)
+                    r = await ecu.send_raw(request_of(c, call), config=cfg)
                     ctx_reach.append("raw-form.calls")
                 else:
-                    r = await ecu.read_data_by_identifier(did, config=cfg)
+                    r = await invoke(ecu, c, call, cfg)
                 hist.append(("return", name, ("ok", r.pdu), loop.time()))
                 results.setdefault(name, []).append(("ok", did, r.pdu))
                 if case.get("mode") != "transport":
@@ -361,6 +531,32 @@ async def run_history(case: dict[str, Any], cancel_at: int | None, cancel_idx: i
         except Exception as e:
             hist.append(("return", "reconnector", ("exc", type(e).__name__), loop.time()))
 
+    waited: list[Any] = []
+
+    async def waiter(wc: dict[str, Any]) -> None:
+        # a scanner that waits for the ECU to come back (after a reset, a power cycle, leaving a session) while its colleagues go on;
+        # the probes it sends are calls of ecu.ping() and the reconnects it does are calls of ecu.reconnect(): both are recorded below
+        await asyncio.sleep(wc["start"])
+        waited.append(await ecu.wait_for_ecu(wc["timeout"]))
+
+    orig_reconnect = ecu.reconnect
+
+    async def reconnect(timeout: Any = None) -> None:
+        name = wire.who()
+        if name == "reconnector":
+            return await orig_reconnect(timeout)  # records its call itself
+        hist.append(("call", name, None, loop.time()))
+        try:
+            await orig_reconnect(timeout)
+            hist.append(("return", name, ("ok", None), loop.time()))
+        except asyncio.CancelledError:
+            hist.append(("return", name, ("cancelled", None), loop.time()))
+            raise
+        except Exception as e:
+            hist.append(("return", name, ("exc", type(e).__name__), loop.time()))
+            raise
+
+    ecu.reconnect = reconnect  # type: ignore[method-assign]
     # the tester-present worker calls self.ping(): record call/return at that client boundary as well
     orig_ping = getattr(ecu, "ping", None)
 
@@ -381,24 +577,31 @@ async def run_history(case: dict[str, Any], cancel_at: int | None, cancel_idx: i
     if orig_ping is not None:
         ecu.ping = ping  # type: ignore[method-assign]
     tasks = [asyncio.create_task(caller(i, c), name=f"caller{i}") for i, c in enumerate(case["callers"])]
+    # who can be cancelled: caller i at index i, then the reconnector, then the task that waits for the ECU
+    targets: list[Any] = list(tasks) + [None, None]
     if case["reconnect_at"] is not None:
         tasks.append(asyncio.create_task(reconnector(case["reconnect_at"]), name="reconnector"))
+        targets[-2] = tasks[-1]
+    if case.get("waiter") is not None:
+        tasks.append(asyncio.create_task(waiter(case["waiter"]), name="waiter"))
+        targets[-1] = tasks[-1]
+        ctx_reach.append("waiter.histories")
     if case["tp"] is not None:
         await ecu.start_cyclic_tester_present(case["tp"])
         assert ecu.tester_present_task is not None
         ecu.tester_present_task.set_name("tp-worker")
     if cancel_at is not None:
         wire.cancel_at = cancel_at
-        wire.cancel_target = tasks[cancel_idx]
+        wire.cancel_target = targets[cancel_idx]
     done = await asyncio.gather(*tasks, return_exceptions=True)
     end = loop.time()
-    if case["tp"] is not None:
+    if case["tp"] is not None and ecu.tester_present_task is not None:
         await ecu.stop_cyclic_tester_present()
     objs: dict[int, int] = {}
     for h in held:
         r = h.pop("resp")
         h.update({"at_end": named_request(r), "obj": objs.setdefault(id(r), len(objs)), "pdu": bytes(r.pdu)})
-    return {"held": held, "stale_negative": wire.stale_negative, "hist": hist, "results": results, "end": end, "reach": ctx_reach, "transport_mutex_locked": wire.transport.mutex.locked(), "gather": [type(d).__name__ if isinstance(d, BaseException) else None for d in done], "mutex_locked": ecu.mutex.locked()}
+    return {"held": held, "stale_negative": wire.stale_negative, "stale_positive": wire.stale_positive, "stale_positive_read": wire.stale_positive_read, "waited": waited, "hist": hist, "results": results, "end": end, "reach": ctx_reach, "transport_mutex_locked": wire.transport.mutex.locked(), "gather": [type(d).__name__ if isinstance(d, BaseException) else None for d in done], "mutex_locked": ecu.mutex.locked()}
 
 
 def check_history(ctx: Any, case: dict[str, Any], out: dict[str, Any], cancel: tuple[int, int] | None) -> None:
@@ -407,6 +610,11 @@ def check_history(ctx: Any, case: dict[str, Any], out: dict[str, Any], cancel: t
     ctx.reach("histories")
     for r in out.get("reach", []):
         ctx.reach(r)
+    for r in out.get("stale_positive", []):
+        # an exchange read a (positive) reply the ECU had produced for another request: r says how the two requests are related
+        ctx.reach("stale-reply-read." + r)
+    if case.get("theme"):
+        ctx.reach("related-requests.histories")
     ctx.trace(tuple((h[0], h[1]) for h in hist))
     if out.get("transport_mutex_locked"):
         ctx.violation("progress/transport-left-locked", "after all callers ended the transport mutex is still held", w)
@@ -428,6 +636,11 @@ def check_history(ctx: Any, case: dict[str, Any], out: dict[str, Any], cancel: t
                     ctx.reach("contention.during-retry")
                 if task == "reconnector":
                     ctx.reach("reconnect.contended")
+                if task == "waiter":
+                    # the waiting task wants to probe (or reconnect) while a colleague's exchange is open
+                    ctx.reach("waiter.arrives-inside-exchange/" + ("tp-worker" if window_owner == "tp-worker" else "reconnector" if window_owner == "reconnector" else "caller"))
+                    if pending_seen_in_window or retry_in_window:
+                        ctx.reach("waiter.arrives-inside-long-exchange")
         elif kind in ("write", "read", "close", "connect"):
             owner = task
             if window_owner is None:
@@ -447,7 +660,7 @@ def check_history(ctx: Any, case: dict[str, Any], out: dict[str, Any], cancel: t
                 if owner in first_write and first_write[owner] >= open_call.get(owner, -1) and window_owner == owner:
                     retry_in_window = True
                 first_write[owner] = i
-            if kind == "read" and payload == bytes([0x7F, 0x22, 0x78]):
+            if kind == "read" and is_pending(payload):
                 pending_seen_in_window = True
             if owner == "tp-worker" and kind == "write" and any(tk != "tp-worker" for tk in open_call):
                 pass
@@ -470,21 +683,28 @@ def check_history(ctx: Any, case: dict[str, Any], out: dict[str, Any], cancel: t
     # ---- ownership of results
     own: dict[str, set[int]] = {}
     for i, c in enumerate(case["callers"]):
-        own[f"caller{i}"] = {(c["did"] + k * 7) & 0xFFFF for k in range(c["calls"])}
+        own[f"caller{i}"] = {call_id(c, k) for k in range(c["calls"])}
+    reqs: dict[int, bytes] = {call_id(c, k): request_of(c, k) for c in case["callers"] for k in range(c["calls"])}  # call -> its request
     refusal: dict[int, bytes] = {}  # the negative reply the simulated ECU gives to this request
     for c in case["callers"]:
         if c["kind"] in REFUSED_KINDS:
-            refusal.update({(c["did"] + k * 7) & 0xFFFF: bytes([0x7F, 0x22, c["nrc"]]) for k in range(c["calls"])})
+            refusal.update({call_id(c, k): negative(request_of(c, k), c["nrc"]) for k in range(c["calls"])})
     stale = set(out.get("stale_negative", []))
+    stale_pos = set(out.get("stale_positive_read", []))
     for name, res in out["results"].items():
         for status, did, val in res:
             if case.get("mode") == "transport":
                 continue  # raw bytes: a late reply of an earlier timed-out exchange may legitimately be read here; only exclusion is decided
-            if status == "ok" and val == BUSY:
+            if status == "ok" and val == negative(reqs[did], 0x21):
                 continue  # a busy final carries no identifier and no request-specific code: judged by the request its object names (below)
             if status == "ok" and val[:1] == b"\x7f" and (name, val) in stale:
                 # a negative reply an abandoned exchange (cancelled caller) left on the wire: no client can tell it from its own
                 ctx.reach("stale-negative-reply.accepted")
+                continue
+            if status == "ok" and did in refusal and val == positive(reqs[did]) and (name, val) in stale_pos:
+                # a reply to an earlier request (its caller gave up) that has every parameter the protocol echoes in common with this
+                # one: byte for byte what the ECU would have sent had it accepted this request - no client can tell it from its own
+                ctx.reach("stale-positive-reply.accepted-for-a-refused-request")
                 continue
             if status == "ok" and did in refusal:
                 if val != refusal[did]:
@@ -492,12 +712,16 @@ def check_history(ctx: Any, case: dict[str, Any], out: dict[str, Any], cancel: t
                     return
                 ctx.reach("refused.results-owned")
             elif status == "ok":
-                if len(val) < 3 or val[0] != 0x62 or int.from_bytes(val[1:3], "big") != did or val != positive(bytes([0x22]) + did.to_bytes(2, "big")):
+                if val != positive(reqs[did]):
                     ctx.violation("ownership/foreign-reply-returned", "a caller received a reply that belongs to another request", {**w, "caller": name, "did": did, "got": val})
                     return
                 ctx.reach("results.owned")
+                if reqs[did][0] != 0x22:
+                    ctx.reach("results.owned/other-services")
             elif val == "RequestResponseMismatch":
                 ctx.reach("late-reply-surfaced-as-error")
+    for h in out.get("held", []):
+        h["req"] = reqs[h["did"]]
     if check_attribution(ctx, w, hist, out.get("held", [])):
         return
     reach_backoff(ctx, case, hist)
@@ -510,7 +734,7 @@ def check_history(ctx: Any, case: dict[str, Any], out: dict[str, Any], cancel: t
         ctx.violation("progress/too-slow", "callers needed more virtual time than the per-request bounds allow", {**w, "end": out["end"], "bound": bound})
     if cancel is not None:
         # where was the cancelled task?
-        tgt = f"caller{cancel[1]}" if cancel[1] < len(case["callers"]) else "reconnector"
+        tgt = f"caller{cancel[1]}" if cancel[1] < len(case["callers"]) else "reconnector" if cancel[1] == len(case["callers"]) else "waiter"
         held = False
         cur: str | None = None
         n = 0
@@ -534,16 +758,18 @@ def check_history(ctx: Any, case: dict[str, Any], out: dict[str, Any], cancel: t
             ctx.reach("cancel.while-holding" if held else "cancel.while-waiting")
             if tgt == "reconnector":
                 ctx.reach("cancel.reconnector")
+            if tgt == "waiter":
+                ctx.reach("cancel.waiter-inside-a-probe")
 
 
 def check_attribution(ctx: Any, w: dict[str, Any], hist: list[tuple[Any, ...]], held: list[dict[str, Any]]) -> bool:
     """every reply object handed to a caller names the request it answers; that must be the caller's own request when the call returns
     and still when all later exchanges have ended (the caller keeps its reply), and callers of different requests never hold one
     and the same reply object. Decisive for replies whose bytes carry no identifier (refusals, busy finals)."""
-    show = [{**h, "at_return": h["at_return"] and h["at_return"].hex(), "at_end": h["at_end"] and h["at_end"].hex(), "pdu": h["pdu"].hex()} for h in held]
+    show = [{**h, "at_return": h["at_return"] and h["at_return"].hex(), "at_end": h["at_end"] and h["at_end"].hex(), "pdu": h["pdu"].hex(), "req": h["req"].hex()} for h in held]
     by_obj: dict[int, set[int]] = {}
     for h in held:
-        req = bytes([0x22]) + h["did"].to_bytes(2, "big")
+        req = h["req"]
         by_obj.setdefault(h["obj"], set()).add(h["did"])
         if h["at_return"] is None or h["at_end"] is None:
             continue  # the statement does not demand that a reply names its request
@@ -593,8 +819,8 @@ def reach_backoff(ctx: Any, case: dict[str, Any], hist: list[tuple[Any, ...]]) -
                 owner, last, pauses = task, None, []
             if task != owner:
                 continue
-            if kind == "write" and last is not None and last[1] == "read" and (last[2] == BUSY or last[2] == "TimeoutError"):
-                pk = "busy-backoff" if last[2] == BUSY else "timeout-backoff"
+            if kind == "write" and last is not None and last[1] == "read" and (is_busy(last[2]) or last[2] == "TimeoutError"):
+                pk = "busy-backoff" if is_busy(last[2]) else "timeout-backoff"
                 pauses.append(pk)
                 contended = False
                 for other, sp in spans.items():
@@ -623,11 +849,11 @@ def reach_backoff(ctx: Any, case: dict[str, Any], hist: list[tuple[Any, ...]]) -
             if task == owner:
                 owner = None
             if isinstance(payload, tuple) and payload[0] == "ok" and payload[1] is not None:
-                if payload[1] == BUSY and w_last is not None and w_last[2] == BUSY:
+                if is_busy(payload[1]) and w_last is not None and is_busy(w_last[2]):
                     ctx.reach("busy.retries-exhausted")
-                elif payload[1] != BUSY and "busy-backoff" in w_pauses:
+                elif not is_busy(payload[1]) and "busy-backoff" in w_pauses:
                     ctx.reach("busy.retried-then-answered")
-                if payload[1] != BUSY and "timeout-backoff" in w_pauses:
+                if not is_busy(payload[1]) and "timeout-backoff" in w_pauses:
                     ctx.reach("timeout-retry.answered")
 
 
@@ -660,6 +886,19 @@ def run(ctx: Any, params: dict[str, Any]) -> None:
         for k in ks:
             tgt = rng.randrange(len(case["callers"]) + (1 if case["reconnect_at"] is not None and rng.random() < 0.5 else 0))
             one(ctx, case, (k, tgt))
+        if case.get("waiter") is not None:
+            # the task that waits for the ECU is cancelled while it is inside a probe or a reconnect (queued for the client or holding it)
+            inside, n, depth = [], 0, 0
+            for h in out["hist"]:
+                if h[1] == "waiter" and h[0] in ("call", "return"):
+                    depth = 1 if h[0] == "call" else 0
+                if h[0] in ("write", "read", "close", "connect", "db-insert"):
+                    n += 1
+                    if depth:
+                        inside.append(n)
+            r3 = random.Random(case["yield_seed"] ^ 0xCA9CE1)
+            for k in r3.sample(inside, min(len(inside), 1 if params["cancel"] == "sample" else 6)):
+                one(ctx, case, (k, len(case["callers"]) + 1))
         if ctx.out_of_time():
             break
 
